@@ -36,6 +36,8 @@ def gen_case(rng, tier, index):
     mode = ["valid", "invalid", "closure"][index % 3]
     T, vals, d = gen.layout(rng, cfg)
     case = {"mode": mode, "T": T, "layout": d}
+    if mode == "closure" and index % 15 == 2:
+        return _union_closure_case(rng, cfg, case)
     if mode == "invalid":
         out = invalid.invalidate(rng, d)
         if out is None:
@@ -49,6 +51,42 @@ def gen_case(rng, tier, index):
                                                              if f not in ("convert", "queries", "unique")])]
         case["chain"] = [rng.random() for _ in range(k - 1)]
         case["seed"] = rng.randrange(1 << 30)
+    return case
+
+
+def _union_closure_case(rng, cfg, case):
+    """inputs on which operations must call simplify_uniontype to stay canonical: unions of records whose same-named fields are unions themselves, unions of option-type arms"""
+    P = gen.P
+    num = lambda: P(rng.choice(["int64", "int32", "float64", "float32", "bool", "uint8", "complex128"]))  # noqa: E731
+    pool = [num(), num(), {"t": "string"}, {"t": "list", "e": num()}, {"t": "option", "e": num()}]
+    rng.shuffle(pool)
+    kind = rng.choice(["records", "records", "options"])   # (a union directly inside a union is itself invalid)
+    if kind == "records":
+        inner = {"t": "union", "arms": pool[:2]}
+        arms = [{"t": "record", "fields": [num()], "keys": ["x"]},
+                {"t": "record", "fields": [inner], "keys": ["x"]}]
+        if rng.random() < 0.4:
+            arms.append({"t": "record", "fields": [pool[2], num()], "keys": ["x", "y"]})
+        rng.shuffle(arms)
+        T = {"t": "union", "arms": arms}
+        op = {"op": "getitem_field", "key": "x"}
+    else:
+        arms = [{"t": "option", "e": a} if a["t"] != "option" else a for a in pool[:rng.choice([2, 3])]]
+        T = {"t": "union", "arms": arms}
+        op = {"op": "fillna", "value": rng.choice([0, 3.5])}
+    if not gen._can_gen(T):
+        return case_fallback(rng, cfg, case)
+    vals = gen.gen_values(rng, T, rng.choice([1, 3, 5, 8]), cfg)
+    case["T"], case["layout"] = T, gen.encode(rng, T, vals, "random", cfg)
+    case["ops"], case["chain"], case["seed"] = [op], [rng.random()] * rng.choice([0, 1]), rng.randrange(1 << 30)
+    case["union_stream"] = kind
+    return case
+
+
+def case_fallback(rng, cfg, case):
+    v = gen.plain(gen.gen_values(rng, case["T"], 0, cfg))
+    case["ops"] = [ops.gen_op(rng, case["T"], v, cfg, families=["structure"])]
+    case["chain"], case["seed"] = [], 0
     return case
 
 
@@ -107,6 +145,8 @@ def run_case(ctx, case):
             if os.environ.get("VERIF_TRACE"):
                 print("TRACE out", out.brief(), flush=True)
             ctx.cover("closure_op", op["op"] + (":" + op["name"] if "name" in op else ""))
+            if step == 0 and case.get("union_stream"):
+                ctx.cover("union_stream", case["union_stream"] + ":" + out.kind)
             ctx.cover("closure_outcome", out.kind if out.kind == "value" else "error:" + str(out.err))
             if out.kind != "value" or out.desc is None or out.handle is None:
                 break
